@@ -4,7 +4,7 @@
 From Coq Require Import List ZArith String.
 From PySMT.core Require Import Syntax Sem SmtStd.
 From PySMT.models Require Import TypeChecker Oracles SmtPrinter SmtScript.
-From PySMT.proofs Require Import SmtPrinter_proofs.
+From PySMT.proofs Require Import SmtPrinter_proofs SmtScript_proofs.
 Import ListNotations.
 Open Scope string_scope.
 
@@ -81,11 +81,69 @@ Theorem C07_new_symbol_fresh : forall names seed,
   exists k, sym = def_name k /\ seed' = S k /\ (seed <= k)%nat /\ ~ In sym names.
 Proof. exact new_symbol_fresh. Qed.
 
+(* ---------------------------------------------------------------------------------------------
+   STATIC HALF.  The text of the tree printer is WELL-SORTED in the SMT-LIB reading (core/SmtStd.v:
+   ssort), at the sort the type checker gives the formula, in any scope of binders.  Side conditions
+   beyond [wfp]: [srt] - no term of a function sort (C03's open finding lets Equals / Ite take
+   function-typed symbols, SMT-LIB's = and ite do not), extract indices ordered, the sort of an
+   array value reads back exactly. *)
+Theorem C07_print_tree_sorted : forall Sg t bound ty,
+  wfp Sg bound t -> srt Sg t -> tc t = Some ty -> bound_good bound ->
+  ssort Sg bound (print_tree t) = Some ty.
+Proof. exact print_tree_sorted_gen. Qed.
+Print Assumptions C07_print_tree_sorted.
+(* ... and so is the let-DAG text (sort-level twin of the freshness invariant of print_dag_sound), in
+   any sort environment G1 that agrees with [bound] on the names t can look up *)
+Theorem C07_print_dag_sorted : forall Sg t bound G1 ty,
+  wfp Sg bound t -> srt Sg t -> tc t = Some ty -> bound_good bound ->
+  (forall n, relevant (Oracles.fv t) n -> assoc n G1 = assoc n bound) ->
+  ssort Sg G1 (print_dag t) = Some ty.
+Proof. intros Sg t. exact (print_dag_sorted_gen Sg (tsize t) t (Nat.le_refl _)). Qed.
+Print Assumptions C07_print_dag_sorted.
+
 (* FULL STATEMENT: forall t dag logic, printable_names t -> std_script_ok (script_of dag logic t) = true.
-   Not proved in general (it needs the static-sorting half); the two witnesses that refuted it
-   before the repairs of 2026-09 (a parametric sort used at two instances; custom sorts occurring
-   only under a function application / as the index sort of an array value, one of them with a
-   name that needs quoting) are now well-formed scripts, like the example terms: *)
+   Proved for BOTH printers (dag = false / true), with every side condition explicit:
+     - the logic name is a symbol;
+     - each custom sort declaration reported by the (repaired) TypesOracle model has a name that
+       reads back and is not a theory sort; no two declarations share a name;
+     - each free symbol has a good name, names are pairwise distinct, and its sort (parameter and
+       result sorts of a function symbol, which has at least one parameter) reads back over the
+       declared sorts;
+     - the formula is Bool-typed, lies in [wfp] over the signature [script_sig t] that the
+       declarations build (so every sort used by a binder or an array value is declared, every
+       free symbol is declared at its sort), and satisfies [srt].
+   Conclusion: set-logic first; every declare-sort and declare-fun is accepted (declared once,
+   before use, never a theory symbol); the asserted text is well-sorted of sort Bool; check-sat. *)
+Theorem C07_script_wellformed_partial : forall dag logic t,
+  sym_name logic <> None ->
+  Forall sort_decl_ok (sort_decls t) -> NoDup (map fst (sort_decls t)) ->
+  Forall (fun_decl_ok (script_sig t)) (fv t) -> NoDup (map fst (fv t)) ->
+  wfp (script_sig t) [] t -> srt (script_sig t) t -> tc t = Some TBool ->
+  std_script_ok (script_of dag logic t) = true.
+Proof. exact script_wellformed_partial. Qed.
+Print Assumptions C07_script_wellformed_partial.
+
+(* the hypotheses are satisfiable: a custom sort S that occurs only two levels deep inside built-in
+   array sorts (a : Array Int (Array Int S)), a quantifier, a sub-term shared between the matrix and
+   the quantifier body; and both printers' scripts for it are well-formed (by computation) *)
+Theorem C07_script_wellformed_hypotheses_satisfiable :
+  sym_name "ALL" <> None /\
+  Forall sort_decl_ok (sort_decls ex_term4) /\ NoDup (map fst (sort_decls ex_term4)) /\
+  Forall (fun_decl_ok (script_sig ex_term4)) (fv ex_term4) /\ NoDup (map fst (fv ex_term4)) /\
+  wfp (script_sig ex_term4) [] ex_term4 /\ srt (script_sig ex_term4) ex_term4 /\ tc ex_term4 = Some TBool /\
+  sort_decls ex_term4 = [("S", 0%nat)].
+Proof. exact ex_term4_hyps. Qed.
+Theorem C07_script_wellformed_example4 :
+  std_script_ok (script_of false "ALL" ex_term4) = true /\ std_script_ok (script_of true "ALL" ex_term4) = true /\
+  map flatten (firstn 3 (script_of false "ALL" ex_term4)) =
+    [["("; "set-logic"; "ALL"; ")"]; ["("; "declare-sort"; "S"; "0"; ")"];
+     ["("; "declare-fun"; "a"; "("; ")"; "("; "Array"; "Int"; "("; "Array"; "Int"; "S"; ")"; ")"; ")"]].
+Proof. exact ex_term4_script. Qed.
+
+(* the two witnesses that refuted script well-formedness before the repairs of 2026-09 (a parametric
+   sort used at two instances; custom sorts occurring only under a function application / as the
+   index sort of an array value, one of them with a name that needs quoting) and the example terms
+   of the soundness theorems, by computation, both printers: *)
 Theorem C07_script_wellformed_param_sort :
   tc param_witness = Some TBool /\
   (forall dag, std_script_ok (script_of dag "QF_UF" param_witness) = true) /\
@@ -111,3 +169,27 @@ Proof. exact numeral_dec. Qed.
 Theorem C07_bvliteral_roundtrip : forall w v, (0 < w)%Z -> (0 <= v < 2 ^ w)%Z -> bvlit_val (bv_string w v) = Some (w, v).
 Proof. exact bvlit_bv. Qed.
 Print Assumptions C07_bvliteral_roundtrip.
+
+(* ---- the case analysis of the model is the dispatch of the source (gen/Operators.v and gen/Dispatch.v are
+   REGENERATED from pysmt/operators.py and the walker classes on every run; qualified names only) *)
+From PySMT.gen Require Operators Dispatch.
+From PySMT.proofs Require Operators_proofs Dispatch_common Dispatch_printers_proofs.
+Theorem C07_operator_table_matches_source :
+  (forall n, List.In n Operators.all_node_types) /\
+  (forall a b, Operators.nt_id a = Operators.nt_id b -> a = b) /\
+  (forall o, Operators.nt_modelled (Operators.nt_of_op o) = true) /\
+  (forall n, Operators.nt_modelled n = false <-> n = Operators.NT_ALGEBRAIC_CONSTANT).
+Proof.
+  exact (conj Operators_proofs.all_node_types_complete (conj Operators_proofs.nt_id_injective
+         (conj Operators_proofs.nt_of_op_modelled Operators_proofs.only_algebraic_constant_unmodelled))).
+Qed.
+
+Theorem C07_printer_spellings_match_source :
+  (forall o s, Dispatch.smtprinter_nary_symbol (Operators.nt_of_op o) = Some s -> op_head o = Some (Atom s)) /\
+  (forall n, Dispatch.smtprinter_nary_symbol n = Dispatch.smtdagprinter_nary_symbol n).
+Proof. exact (conj Dispatch_printers_proofs.smtprinter_spellings_match_source Dispatch_printers_proofs.smt_printers_agree). Qed.
+Theorem C07_printer_dispatch_matches_source :
+  (forall n, Dispatch.smtprinter_dispatch n = Dispatch_printers_proofs.smt_expected "write_annotations" n) /\
+  (forall n, Dispatch.smtdagprinter_dispatch n = Dispatch_printers_proofs.smt_expected "write_annotations_dag" n).
+Proof. exact (conj Dispatch_printers_proofs.smtprinter_dispatch_matches_source Dispatch_printers_proofs.smtdagprinter_dispatch_matches_source). Qed.
+Print Assumptions C07_printer_spellings_match_source.
